@@ -19,20 +19,20 @@ CLAIMED = {
     "C01": E("other", "Decides the structural clauses of the wire-image property for all inputs: codec byte order/width of every "
              "set_primitive instantiation (both build paths), exact write footprint of setters, the validator's layout recurrence "
              "(members never overlap, blockLength >= content), and - for the 24 schemas of build set + corpus - offset/width/byte "
-             "order of every generated accessor against an independent XML model. Whole encode scripts are not decided.",
+             "order of every generated accessor against an independent XML model. Set choice setters: shift rule and mask rows. Whole encode scripts are not decided.",
              "DESIGN.md 3/C01", TB + "Composition over run-time group counts / data lengths is not covered.",
              "affine/effect dataflow on typed AST (E2) + translation validation of generated headers (E4) + guard/effect table (G-GUARD)"),
     "C02": E("other", "Decides the decoder-side codec clause (one READ of sizeof(T), result = those bytes reversed iff byte orders "
              "differ, no arithmetic on the value) for every instantiation under C++11/17/20 paths, get_value's check/read width "
-             "agreement, constexpr reachability under C++20, and per generated getter of the corpus the model's offset/width/order.",
+             "agreement, constexpr reachability under C++20, and per generated getter of the corpus the model's offset/width/order; set choice getters (shift rule, mask rows); value()/operator* of the wrappers return the stored representation.",
              "DESIGN.md 3/C02", TB + "Value equality on concrete images and FP register effects are not decided.",
              "affine/effect dataflow (E2) against the SBE encoding table + E4"),
     "C03": E("other", "Every level-end, stride and entry address in the library is an affine form over *wire* blockLength/numInGroup "
              "symbols (never a compile-time constant); in the generator the compiled block length reaches only header fillers and "
-             "block_length() traits.", "DESIGN.md 3/C03", TB, "affine spec rows over E2 summaries + who-may-read def-use rule (G-FLOW c) + E4 cursor-primitive rule on generated accessors"),
+             "block_length() traits; the checking visitor charges each entry the wire blockLength of the group being traversed (state rows).", "DESIGN.md 3/C03", TB, "affine spec rows over E2 summaries + who-may-read def-use rule (G-FLOW c) + E4 cursor-primitive rule on generated accessors"),
     "C04": E("other", "The 48-row cursor protocol table (5 kinds x 10 primitives) is compared, as equalities of affine normal forms, "
              "with every instantiation: access address, value, cursor-after, wrong-cursor assertion present/absent, size check on "
-             "the accessed base. Call-sequence product space not explored.", "DESIGN.md 3/C04", TB,
+             "the accessed base; cursor_range / cursor_subrange rows in the checked and the unchecked configuration. Call-sequence product space not explored.", "DESIGN.md 3/C04", TB,
              "spec table vs path-sensitive affine summaries (E2); E4 for generated cursor offsets"),
     "C05": E("other", "R-INT proves every size computation is carried out in 64 bits or cannot overflow for any header value; "
              "size rows (flat = H + N*BL, cursor size = c - begin); generated size_bytes(...) traits equal the model's polynomial "
@@ -43,23 +43,23 @@ CLAIMED = {
              "DESIGN.md 3/C06", TB + "Reads inside entry loops are undecided (counted); 'valid exactly when' over all buffers not decided. "
              "Known findings D10 (replayed with ASan).", "path-sensitive affine/effect dataflow with accounting facts (read-before-validate)"),
     "C07": E("other", "Rule families over the generator for all schemas (template binding, free text into literals, literal tables, "
-             "keyword table, name capture) plus standalone compilation of every generated header and a model-generated "
+             "keyword table, name capture incl. namespace-scope capture of std, declared-presence who-may-read rule, per-arm escape discipline) plus standalone compilation of every generated header and a model-generated "
              "touch-everything TU for 24 schemas.", "DESIGN.md 3/C07",
              "Compilability of schemas outside the corpus beyond the rule families is not decided.",
              "template lint + def-use taint on AST facts, compile witnesses"),
     "C08": E("other", "Each of the 65 throw sites is dominated by exactly its hand-confirmed guard (strictness included); traversal "
-             "reaches every position; memo caches belong to one validator (G-CACHE); required-rule table (G-REQ: known gaps D13/D15/D17); exit status mapping; the 24 valid boundary schemas are accepted.", "DESIGN.md 3/C08",
+             "reaches every position; memo caches belong to one validator (G-CACHE); required-rule table (G-REQ: known gaps D13/D15/D17); classifying predicates scan their whole argument (G-SCAN); exit status mapping; the 24 valid boundary schemas are accepted.", "DESIGN.md 3/C08",
              "Acceptance of every rule-abiding schema in general is not decided.",
              "structural dominance + normalised guard table (G-GUARD), call-graph requirements (G-CALL), cache-exclusivity shape rule (G-CACHE)"),
     "C09": E("other", "Every enumerated hazard call site has a dominating guard or a recorded invariant linked to a live validator "
-             "check; format strings are literals with bound fields; main covers std::exception; include recursion rule.", "DESIGN.md 3/C09", "UB in general, pugixml internals, memory exhaustion, other hang shapes not decided.",
+             "check or to a value-exclusion rule on the helper that establishes it; format strings are literals with bound fields; main covers std::exception; include recursion rule.", "DESIGN.md 3/C09", "UB in general, pugixml internals, memory exhaustion, other hang shapes not decided.",
              "hazard enumeration with resolved callees + guard-or-invariant rule (G-HAZ), template lint (G-TPL), cache-exclusivity shape rule (G-CACHE)"),
     "C10": E("other", "On every path of every public operation each buffer access is preceded by an asserted bound that covers exactly "
-             "the accessed bytes on the accessed base (R-CHK); a data-dependent move of a view's own ptr is covered by an asserted ptr' <= end (R-CHK.step); configuration truth table of SBEPP_SIZE_CHECKS_ENABLED.",
+             "the accessed bytes on the accessed base (R-CHK); a data-dependent move of a view's own ptr is covered by an asserted ptr' <= end (R-CHK.step); every view handed out inherits the end pointer of the view it was derived from (R-CHK.derive); the validator guard that keeps array elements one byte wide is a linked instance; configuration truth table of SBEPP_SIZE_CHECKS_ENABLED.",
              "DESIGN.md 3/C10", TB + "Operation sequences follow operation-by-operation only.",
              "path-sensitive affine/effect dataflow with dominance + linear implication (R-CHK)"),
     "C11": E("proof", "Type checker as prover: generated negative witnesses for every mutating call form of every entity, conversion "
-             "witnesses, and the no-const-removing-cast rule over all instantiations.", "DESIGN.md 3/C11",
+             "witnesses, cv-qualifier witnesses for the array references (const / volatile / const volatile bytes), the positive witness TU (read-only use with const bytes and const cursors compiles) and the no-const-removing-cast rule over all instantiations.", "DESIGN.md 3/C11",
              "Trusted: clang/g++ type checkers, cast enumeration by the extractor, completeness of the XML-model enumeration (cross-checked by E4).",
              "compile-fail witnesses + AST cast rule"),
     "C12": E("other", "Affine rows for group bases / iterators / cursor ranges for all 16 dimension pairs (laws hold as algebra over "
@@ -67,29 +67,29 @@ CLAIMED = {
              TB, "spec rows over E2 summaries + interval arithmetic (R-INT)"),
     "C13": E("other", "Only per-operation clauses are decided (the vector-model equivalence over operation sequences is a property of "
              "histories, not applicable to this family): exact write footprint, new length, returned iterator and precondition "
-             "strictness of every <data> mutator for all length types / byte orders / element types of the corpus.",
+             "strictness of every <data> mutator for all length types / byte orders / element types of the corpus; single-pass ranges are traversed once; linked validator guard (one-byte elements).",
              "DESIGN.md 3/C13", TB + "Sequences of operations are not explored.", "spec rows over path-sensitive affine/effect summaries (E2)"),
     "C14": E("other", "Exact write footprints, padding per eos mode, returned iterators, precondition strictness, strlen/strlen_r scan "
-             "ranges for every array length of the corpus (incl. 0 and 1).", "DESIGN.md 3/C14",
+             "ranges for every array length of the corpus (incl. 0 and 1); single-pass ranges are traversed once.", "DESIGN.md 3/C14",
              TB + "Contents for all inputs follow from the trusted std-algorithm summaries.", "spec rows over E2 summaries"),
     "C15": E("other", "Shift rule (operand at least as wide as T, unsigned at T's width), mask algebra rows of get_bit/set_bit, "
              "generated choice accessors pass the XML index.", "DESIGN.md 3/C15", TB, "R-INT shift rule + E2 mask rows + E4"),
     "C16": E("other", "Generator default min/max/null tables equal the library constants (compile witnesses over constants); "
-             "comparison operators as truth tables over the skeleton atoms; NaN-null rule.", "DESIGN.md 3/C16",
+             "comparison operators as truth tables over the skeleton atoms; NaN-null rule; value()/value_or rows.", "DESIGN.md 3/C16",
              "Results on concrete value pairs beyond the truth tables are not decided.",
              "sibling-table rule with static_assert witnesses + propositional truth tables of operator skeletons"),
     "C17": E("translation_validation", "For every message/group of 24 schemas the filler's write set equals the XML model's header "
              "fields/values; sibling rule on header-member lookups.", "DESIGN.md 3/C17", "Scope: build set + corpus schemas.",
              "E2 summaries of generated fillers vs independent XML model"),
     "C18": E("translation_validation", "Every trait of every entity of 24 schemas equals the XML model; tag predicates and traits_tag "
-             "round trips by type-level witnesses; min/max/null limits equal the XML attribute or the SBE default (generated code and generator tables).", "DESIGN.md 3/C18", "Scope: build set + corpus schemas.",
+             "round trips by type-level witnesses; actual-presence rules per kind of encoding (value exclusion) and the declared-presence who-may-read rule; free text reaches literals through an exact escaper; min/max/null limits equal the XML attribute or the SBE default (generated code and generator tables).", "DESIGN.md 3/C18", "Scope: build set + corpus schemas.",
              "AST extraction of trait specialisations vs independent XML model + static_assert witnesses"),
     "C19": E("translation_validation", "Generated visit_children bodies are ||-chains of exactly the members in schema order with own "
-             "accessor and tag; enum/set visits; library early-stop loop; by-tag forwarding.", "DESIGN.md 3/C19",
+             "accessor and tag; enum/set visits; library early-stop loop; by-tag forwarding; which members are visited follows actual_presence in every generator (G-FLOW.f, G-PRES).", "DESIGN.md 3/C19",
              "Event logs on concrete messages for every stopping point are not explored (short-circuit || is the language's).",
              "AST structure rules on generated code vs XML model"),
     "C20": E("other", "Must-check rules on fs_provider (open test, flush/close, state test with throwing arm), who-may-touch-disk, "
-             "exit status mapping, determinism API/iteration rules.", "DESIGN.md 3/C20",
+             "every error_code is tested before it is reused (G-IO.ec), exit status mapping, determinism rules (API, pointer-keyed iteration, address-dependent values, never-assigned members of default-initialised parse structs).", "DESIGN.md 3/C20",
              "Individual failing syscalls and byte identity of real runs are not decided.",
              "must-check / who-may-call rules on resolved call sites"),
 }
